@@ -62,6 +62,9 @@ func checkEncode(r *ev.Run, c *ev.Case, k *keyid.KeyID) {
 		return
 	}
 	r.Nontrivial("enc:" + text)
+	kc := *k // the encoder gives the same text for the same value whenever asked, also from several goroutines at once
+	kc.Principals = append([]string(nil), k.Principals...)
+	encRing.Add(r, c, func() string { return ev.Digest(func() string { t, e := kc.Marshal(); return fmt.Sprint(t, e != nil) }) }, fmt.Sprint(text, false), given)
 	var back *keyid.KeyID
 	var derr error
 	if r.Guard(c, "Unmarshal", caseRec{Text: text, What: "decode-of-encoded"}, func() { back, derr = keyid.Unmarshal(text) }) {
@@ -101,7 +104,7 @@ func flagSig(k *keyid.KeyID) string {
 
 // checkDecode applies the decoding clause to an arbitrary text. shape is a short
 // label of how the text was derived (used for signatures and counters).
-var ring *ev.Ring
+var ring, encRing *ev.Ring
 
 func decodeDigest(text string) string {
 	k, err := keyid.Unmarshal(text)
@@ -252,6 +255,7 @@ func main() {
 		r.Rule("cases: (1) the full attribute cube 2^4 flags x touch{-1,0,1,2,3,4,99} x usage{0,1,7} x version{0,1,2,65535}, each with seeded principals/strings, encoded and round-tripped; (2) for every cube value its raw JSON (bypassing the encoder's checks) decoded; (3) per valid encoding every single required-field deletion, case-rename, duplication and retyping; (4) JSON scalars/arrays/nesting; (5) random bytes and byte mutations of valid encodings. distinct_nontrivial = distinct encoder outputs + distinct decoder inputs that are JSON objects (i.e. got past syntax) + distinct refused flag combinations")
 		r.Assume("encoding/json (into map[string]RawMessage) is the independent witness for 'the text contained the field'", "strings are valid UTF-8 (JSON cannot carry other bytes verbatim)")
 		ring = ev.NewRing("keyid.Unmarshal", r.Seed, 37)
+		encRing = ev.NewRing("KeyID.Marshal", r.Seed+1, 31)
 		reps := r.Pick(2, 40)
 		// (1)+(2) cube
 		if r.Want("cube") {
@@ -365,6 +369,7 @@ func main() {
 		}
 		if r.Replay == nil {
 			ring.Stress(r, r.CaseAlways("stress", 0), 8, 2)
+			encRing.Stress(r, r.CaseAlways("stress", 1), 8, 2)
 		}
 		r.Floor(int64(r.Pick(20000, 400000)), 2000)
 	})
